@@ -277,10 +277,20 @@ func cmdC01Diff(seed uint64, n int, dir string) {
 	type job struct {
 		src   string
 		files map[string]string
+		hyg   bool
 	}
 	jobs := make([]job, n)
 	var pre []string
+	hk := map[string]int{}
 	for c := 0; c < n; c++ {
+		if c%10 == 9 {
+			// frame-hygiene programs (harness/c07hyg.go): locals initialised from untyped constants, used type-sensitively,
+			// in functions called after float / byte / string work at the same stack depth
+			jobs[c].src, _, _ = genHygieneProgram(r, false, hk)
+			jobs[c].hyg = true
+			pre = append(pre, asInt32(jobs[c].src))
+			continue
+		}
 		switch c % 4 {
 		case 0:
 			jobs[c].src = genCoreProgram(r, 5)
@@ -297,6 +307,11 @@ func cmdC01Diff(seed uint64, n int, dir string) {
 	}
 	goRefPrefetch(pre)
 	for c := 0; c < n; c++ {
+		if jobs[c].hyg {
+			st.add("frame-hygiene program", fmt.Sprintf("hygiene %d (%d lines)", c, strings.Count(jobs[c].src, "\n")))
+			diffProgram(st, "hygiene-program", jobs[c].src)
+			continue
+		}
 		switch c % 4 {
 		case 0:
 			src := jobs[c].src
